@@ -100,7 +100,8 @@ Definition parse_duration (s : string) : option Z :=
 (* ------------------------------------------------------------------ JSON values *)
 Inductive json :=
 | JNull | JBool (b : bool) | JNum (z : Z) | JStr (s : string)
-| JArr (l : list json) | JObj (l : list (string * json)).
+| JArr (l : list json) | JObj (l : list (string * json))
+| JFloat (s : string).   (* a non-integral number, by its decimal literal *)
 
 Fixpoint insert_kv {V} (k : string) (v : V) (l : list (string * V)) : list (string * V) :=
   match l with
@@ -125,6 +126,7 @@ Fixpoint json_eqb (a b : json) {struct a} : bool :=
   | JBool x, JBool y => Bool.eqb x y
   | JNum x, JNum y => Z.eqb x y
   | JStr x, JStr y => String.eqb x y
+  | JFloat x, JFloat y => String.eqb x y
   | JArr x, JArr y =>
       (fix go (x y : list json) : bool :=
          match x, y with
